@@ -19,6 +19,51 @@ from .cfg import cfg_of
 from .q import try_const, lower_bound_at, cfg_node_for, match
 
 
+
+def P(index, attr=None):
+    """Buffer spec: the parameter at `index` (self / cls not counted), optionally one of its attributes."""
+    return ('param', index, attr)
+
+
+def FROM(*prefixes, **kw):
+    """Buffer spec: every local name bound from a call whose text starts with one of `prefixes` + '(' (optionally an attribute of
+    that name).  The table names the *source* of the bytes, so renaming the local variable does not detach the rule."""
+    return ('from', prefixes, kw.get('attr'))
+
+
+def names_for(func, spec):
+    """Resolve a buffer spec to the expression texts to analyse in `func` (a plain string is taken literally)."""
+    if isinstance(spec, str):
+        return [spec]
+    kind = spec[0]
+    if kind == 'param':
+        args = [a.arg for a in func.node.args.posonlyargs + func.node.args.args]
+        if args and args[0] in ('self', 'cls') and func.kind != 'staticmethod':
+            args = args[1:]
+        if spec[1] >= len(args):
+            return []
+        return [args[spec[1]] + ('.' + spec[2] if spec[2] else '')]
+    if kind == 'from':
+        out = []
+        for st in walk_no_nested(func.node):
+            if isinstance(st, ast.Assign) and len(st.targets) == 1 and isinstance(st.targets[0], ast.Name):
+                v = norm(st.value)
+                if any(v.startswith(pre + '(') for pre in spec[1]):
+                    name = st.targets[0].id + ('.' + spec[2] if spec[2] else '')
+                    if name not in out:
+                        out.append(name)
+        return out
+    raise ValueError('bad buffer spec %r' % (spec,))
+
+
+def spec_text(spec):
+    if isinstance(spec, str):
+        return spec
+    if spec[0] == 'param':
+        return 'parameter %d%s' % (spec[1], ('.' + spec[2]) if spec[2] else '')
+    return 'value of %s(...)%s' % (' / '.join(spec[1]), ('.' + spec[2]) if spec[2] else '')
+
+
 def _is(expr, var):
     return norm(expr) == var
 
@@ -444,6 +489,14 @@ def minlen_states(cfg, var, extra, sources=None, base=0):
                         b = 0
                         if sources and isinstance(a, ast.Assign) and norm(t) == var:
                             b = source_bound(sources, norm(a.value))
+                            v_ = a.value
+                            if not b and isinstance(v_, ast.Subscript) and isinstance(v_.slice, ast.Slice):
+                                # a constant slice of a value with a proven length
+                                lo = try_const(v_.slice.lower) if v_.slice.lower is not None else 0
+                                hi = try_const(v_.slice.upper) if v_.slice.upper is not None else None
+                                inner = source_bound(sources, norm(v_.value))
+                                if isinstance(lo, int) and lo >= 0 and inner:
+                                    b = max(0, (min(hi, inner) if isinstance(hi, int) and hi >= 0 else inner) - lo)
                         rebinds[n] = b
         if n.kind == 'stmt' and isinstance(a, ast.AugAssign) and not isinstance(a.op, ast.Add):
             if any(norm(x) == var or (isinstance(x, ast.Name) and x.id == base_name) for x in ast.walk(a.target)):
